@@ -71,7 +71,7 @@ def run(ctx):
             ctx.count("history:tasks", sum(1 for l in log if l.startswith("task")))
             for item in p8:
                 p, ctxlog = item if isinstance(item, tuple) else (item, log[-6:])
-                last2w = next((l for l in reversed(ctxlog) if l.startswith("tasks ")), "")
+                last2w = " || ".join(l for l in ctxlog if l.startswith("tasks "))
                 m_ = re.search(r"but file (\S+) is not on node (\S+)", p)
                 if m_ and "recorded healthy and wanted" in p and "Delete copies" in last2w and f"Import acq/{m_.group(1)} on {m_.group(2)}" in last2w:
                     ctx.violation("import-delete-race", p + " [two-worker pass: " + last2w[:200] + "]",
